@@ -51,6 +51,7 @@ type Msg struct {
 	ReqHex      string `json:"req_hex,omitempty"`
 	Chain       string `json:"chain,omitempty"`
 	Contract    string `json:"contract,omitempty"`
+	MetaHex     string `json:"meta_hex,omitempty"` // record: free-form metadata (any bytes), copied into the event only
 	Tok         string `json:"tok,omitempty"`
 	Feeder      int    `json:"feeder,omitempty"`
 	Val         int    `json:"val,omitempty"`
@@ -388,6 +389,11 @@ func treasuryInt(tid uint64) *big.Int {
 }
 func (e *Exec) trackTreasury(tid uint64, denom string) { e.track(treasuryInt(tid), denom) }
 
+func metaString(m Msg) string {
+	b, _ := hex.DecodeString(m.MetaHex)
+	return string(b)
+}
+
 func reqBytes(m Msg) []byte {
 	if m.ReqHex != "" {
 		b, _ := hex.DecodeString(m.ReqHex)
@@ -444,7 +450,7 @@ func (e *Exec) toSdkMsg(m Msg) sdk.Msg {
 		return settlementtypes.NewMsgDepositToTreasury(acct(m.Sender).Bech(), m.Tid, sdk.Coin{Denom: e.realDenom(m.Denom), Amount: amt()})
 	case "record":
 		e.noteReq(m.Tid, reqBytes(m))
-		return settlementtypes.NewMsgRecord(acct(m.Sender).Bech(), m.Tid, string(reqBytes(m)), sdk.Coin{Denom: e.realDenom(m.Denom), Amount: amt()}, m.Chain, m.Contract, m.Tok, "")
+		return settlementtypes.NewMsgRecord(acct(m.Sender).Bech(), m.Tid, string(reqBytes(m)), sdk.Coin{Denom: e.realDenom(m.Denom), Amount: amt()}, m.Chain, m.Contract, m.Tok, metaString(m))
 	case "cancel":
 		e.noteReq(m.Tid, reqBytes(m))
 		return settlementtypes.NewMsgCancel(snd(), m.Tid, string(reqBytes(m)))
